@@ -25,7 +25,8 @@ EXPR = [X + "relational_to_piecewise", X + "binary_op", X + "unary_op", X + "bui
 PY_PRINT = [PP + n for n in ("_print_And", "_print_Or", "_print_Not", "_print_sign", "_print_Equality", "_print_Piecewise", "_print_Float", "_print_Mod")] \
     + ["frame:gotranx.codegen.python.GotranPythonCodePrinter"]
 ODE_PRINT = [OP + n for n in ("_print_Relational", "_print_And", "_print_Or", "_print_Exp1", "_print_Piecewise")] \
-    + ["frame:gotranx.codegen.ode.BaseGotranODECodePrinter"]
+    + ["frame:gotranx.codegen.ode.BaseGotranODECodePrinter", "gotranx.codegen.ode.print_ScalarParam", "gotranx.codegen.ode.print_assignment",
+       "gotranx.codegen.ode.start_odeblock"]
 PY_TMPL = [TP + n for n in ("state_index", "parameter_index", "monitor_index", "missing_index", "init_state_values",
                             "init_parameter_values", "method")]
 C_TMPL = [TC + n for n in ("state_index", "parameter_index", "monitor_index", "missing_index", "method", "init_state_values", "init_parameter_values")]
